@@ -149,7 +149,7 @@ Proof. rewrite plan_us_known. apply plan_us_total. Qed.
 (* ---- the code before the fix (finding C14-4) --------------------------------------- *)
 
 Definition eu3 : st :=
-  let u := repeat (mkChannel 868100000 0 5 true false) 3 in mkSt true 0 5 u u [].
+  let u := repeat (mkChannel 868100000 0 5 true false) 3 in mkSt true 0 5 u u [] [0; 1; 2; 3; 4; 5; 6; 7].
 
 (* pristine three-channel plan, the device reports a channel the plan does not
    have: one payload with ChMaskCntl 8 (not encodable); with index 4096 the
